@@ -2,7 +2,7 @@ import Andes.Model.Hex
 import Andes.Model.Config
 /-! Line protocol for the configuration model (floats = their 64 IEEE bits as `Nat`).
 
-`cfg run <numerals> <decls> <dict> <rc> <opts> <script>`      full scenario (construct, script, save, reload)
+`cfg run <numerals> <decls> <dict> <rc> <opts> <script> <saveorder>`      full scenario (construct, script, save, reload)
 `cfg num <hex text>`                                       numeral classification of one string
 `cfg path <arg> <default> <cwd> <home>`                     which rc file is read
 
@@ -14,7 +14,8 @@ Tokens contain no blanks.  A string is the hex of its ASCII bytes.  A value is `
 * rc: `N` (no rc object) or `R` followed by `|`-joined `name~key:text,...`; the name `*` is the DEFAULT section.
 * opts: `N`, `E` (empty list) or `hex,hex,...`.
 * script: `-` or `|`-joined ops `A~sec~key:val` (attribute assignment), `U~sec~kvs` (Config.update),
-  `F~sec` (as_dict(refresh=True)). -/
+  `F~sec` (as_dict(refresh=True)).
+* saveorder: indices into decls in the order `collect_config` visits them (System, routines, models). -/
 namespace Andes.Config
 open Andes.Hex
 
@@ -140,6 +141,7 @@ def errName : Err → String
   | .badField => "BadField"
   | .notAChoice => "NotAChoice"
   | .valueType => "ValueType"
+  | .dupOption => "DuplicateOption"
 
 def showErr (e : Err × String) : String := "!" ++ errName e.1 ++ ":" ++ hexS e.2
 
@@ -171,7 +173,7 @@ def showSaved (ss : List (String × Sect)) : String :=
 
 def handleCfg (args : List String) : String :=
   match args with
-  | [num, decls, dict, rc, opts, script] =>
+  | [num, decls, dict, rc, opts, script, sorder] =>
     let r : Option String := do
       let N ← numOf num
       let decls ← (decls.splitOn "|").mapM declOf
@@ -179,13 +181,14 @@ def handleCfg (args : List String) : String :=
       let rc ← rcOf rc
       let opts ← optsOf opts
       let ops ← listOf "|" opOf script
+      let sorder ← natsOfString sorder
       match mkSystem N decls dict rc opts with
       | .error e => pure ("C=" ++ showErr e)
       | .ok cs =>
         let (cs1, errs) := runScript N ops 0 cs []
         let head := "C=" ++ showCfgs cs ++ " S=" ++ (if errs.isEmpty then "-" else ",".intercalate errs)
           ++ " P=" ++ showCfgs cs1
-        match saveAll N cs1 true with
+        match saveAll N (sorder.filterMap (fun i => cs1[i]?)) true with
         | .error e => pure (head ++ " V=" ++ showErr (e, ""))
         | .ok (_, ss) =>
           let back := match mkSystem N decls [] (some (savedRc ss)) none with
@@ -199,7 +202,7 @@ def handleCfg (args : List String) : String :=
 def handleNum (args : List String) : String :=
   match args with
   | [h] =>
-    match unhex h with
+    match unhex (h.drop 1).toString with
     | some s =>
       match pyInt s with
       | some i => "i" ++ toString i
